@@ -108,7 +108,9 @@ class Ctx:
         budget = collections.Counter()
         for k in mine:
             if k.get('status') == 'known':
-                budget[k['key']] += int(k.get('count', 1))
+                # count "*": a root-cause entry - an unbounded user quantity reaches a panicking API inside this function; how many
+                # call sites of that API the function spells it with (an early return duplicates one) is immaterial
+                budget[k['key']] += (10 ** 6 if k.get('count') == '*' else int(k.get('count', 1)))
         kf_hits = collections.OrderedDict()
         violations = []
         for f in self.findings:
